@@ -25,6 +25,7 @@ import (
 	"io"
 	"log"
 	"net/http"
+	"sync"
 	"time"
 
 	"context"
@@ -65,6 +66,11 @@ type Connection struct {
 	serverMessages  chan *message
 	protocolVersion int
 	subprotocol     string
+
+	// sendMu serializes the senders on clientMessages with the closing of that
+	// channel; closed records that Close has been called.
+	sendMu sync.Mutex
+	closed bool
 }
 
 // This map defines the set of headers that should be stripped from the WS request, as they
@@ -170,10 +176,22 @@ func NewConnection(ctx context.Context, targetURL string, header http.Header, er
 }
 
 // Close closes the websocket client connection.
+//
+// It is safe to call Close more than once and concurrently with SendClientMessage.
 func (conn *Connection) Close() {
-	conn.clientMessages <- &message{
+	conn.sendMu.Lock()
+	defer conn.sendMu.Unlock()
+	if conn.closed {
+		return
+	}
+	conn.closed = true
+	select {
+	case conn.clientMessages <- &message{
 		websocket.CloseMessage,
 		websocket.FormatCloseMessage(websocket.CloseNormalClosure, ""),
+	}:
+	case <-conn.done():
+		// The writing routine is gone; nobody would take the message.
 	}
 	// Closing the writing routine.
 	close(conn.clientMessages)
@@ -220,11 +238,20 @@ func (conn *Connection) SendClientMessage(msg interface{}, injectionEnabled bool
 			clientMessage = injectedMsg
 		}
 	}
+	conn.sendMu.Lock()
+	defer conn.sendMu.Unlock()
+	if conn.closed {
+		return fmt.Errorf("attempt to send a client message on a closed websocket connection")
+	}
 	select {
 	case <-conn.done():
 		return fmt.Errorf("attempt to send a client message on a closed websocket connection")
 	default:
-		conn.clientMessages <- clientMessage
+	}
+	select {
+	case conn.clientMessages <- clientMessage:
+	case <-conn.done():
+		return fmt.Errorf("attempt to send a client message on a closed websocket connection")
 	}
 	return nil
 }
